@@ -216,7 +216,9 @@ fn drive_chunks(v: &Verifier, limits: &[u64]) -> (Result<u64, ckb_error::Error>,
                 state = Some(s);
             }
         }
-        assert!(rounds < 2_000_000, "chunk drive does not terminate");
+        if rounds >= 3000 {
+            return (Err(ScriptError::Other("verif: chunk drive made no end in 3000 rounds".into()).unknown_source().into()), rounds);
+        }
     }
 }
 
@@ -250,13 +252,19 @@ fn exec_case(lines: &[String], out: &mut Out, consensus: &Arc<Consensus>, rt: &t
                 let c = case.as_ref().expect("prog first");
                 let limits: Vec<u64> = t[1].split(',').map(|x| x.parse().unwrap()).collect();
                 let (r, rounds) = drive_chunks(&c.v, &limits);
-                out.op(line, &show(&r));
+                let one = c.v.verify(u64::MAX);
+                if show(&one) != show(&r) {
+                    // deviation (known finding F20 family): reported by the oracle below; the op line
+                    // carries the observed class so that the model stream stays aligned
+                    out.op(&format!("{} dev={}", t[..2].join(" "), show(&r).replace(' ', "_")), &show(&r));
+                } else {
+                    out.op(&t[..2].join(" "), &show(&r));
+                }
                 out.count("op:chunks");
                 if rounds > 1 {
                     out.nontrivial(format!("chunks/{}/{}", t[1].len().min(12), rounds.min(64)));
                 }
                 // oracle: any partition driven to completion = the unlimited one-shot run
-                let one = c.v.verify(u64::MAX);
                 if show(&one) != show(&r) {
                     out.oracle_fail("chunked-differs-from-oneshot", &format!("oneshot={} chunked={} rounds={rounds} op={line}", show(&one), show(&r)));
                 }
@@ -323,7 +331,11 @@ fn gen_case(p: &Prog, rng: &mut Rng, thorough: bool, consensus: &Arc<Consensus>)
     let v = verifier(&rtx, consensus);
     let groups = measure(&v)?;
     let total: u64 = groups.iter().map(|g| g.0).sum();
-XX, p.name, groups.iter().map(|(c, e)| format!("{c}:{e}")).collect::<Vec<_>>().join(","))];
+    if !thorough && total > 3_000_000 {
+        return None; // long-running programs: thorough tier only
+    }
+    let all_ok = groups.iter().all(|g| g.1 == 0);
+    let mut lines = vec![format!("prog {} {}", p.name, groups.iter().map(|(c, e)| format!("{c}:{e}")).collect::<Vec<_>>().join(","))];
     // budgets
     if all_ok {
         for b in [total.saturating_sub(1), total, total + 1, 0, total / 2, u64::MAX] {
